@@ -14,7 +14,8 @@ package drummer
 //   electionManager{state, drummerServer, randSrc, instanceID, currentLeader,
 //   sessionUser}, leaderInfo{instanceID,tick,staticRound}, stateFollower,
 //   sessionUser{nh, session}, newDrummerServer, (*server).getElectionInfo,
-//   leaderMain, followerMain, isLeader, deadLeaderMinRound, defaultShardID,
+//   leaderMain, followerMain, isLeader, deadLeaderMinRound, leadershipRenewalSecond,
+//   DBKVUpdated, DBKVFinalized, DBKVRejected, defaultShardID,
 //   electionKey; function NAMES lookupDB, proposeDrummerUpdate, getSession,
 //   resetSession (used to classify the DB operation a context is created for).
 //
@@ -38,7 +39,7 @@ package drummer
 //   T <server> <tick> <faults>       faults: "-" | "REAL" | k=v,... with k in r1 r2 s p c, v in 1 2
 //   END
 // Output:
-//   P deadLeaderMinRound <n>
+//   P <constant name> <n>            (deadLeaderMinRound, leadershipRenewalSecond, DBKV* result codes)
 //   CASE <name>
 //   O <leaders bitstring> <recid> <rectick> <role> <cur: id tick static | -> <sess 0/1> <ops|?> <panic 0/1>
 //   ENDCASE ok | ENDCASE infra <msg>
@@ -475,6 +476,10 @@ func TestVerifElection(t *testing.T) {
 	}
 	w := bufio.NewWriter(f)
 	fmt.Fprintf(w, "P deadLeaderMinRound %d\n", uint64(deadLeaderMinRound))
+	fmt.Fprintf(w, "P leadershipRenewalSecond %d\n", uint64(leadershipRenewalSecond))
+	fmt.Fprintf(w, "P DBKVUpdated %d\n", uint64(DBKVUpdated))
+	fmt.Fprintf(w, "P DBKVFinalized %d\n", uint64(DBKVFinalized))
+	fmt.Fprintf(w, "P DBKVRejected %d\n", uint64(DBKVRejected))
 	for _, r := range results {
 		for _, l := range r {
 			fmt.Fprintln(w, l)
